@@ -137,6 +137,9 @@ func execRun(pd *PropDef, seed uint64, tier string, ch *vsim.Choices, keepOps bo
 	if r.Sim.Preempts > 0 {
 		res.Probes["statement-level-preemptions"] += r.Sim.Preempts
 	}
+	if r.Sim.IOSwitches > 0 {
+		res.Probes["io-point-switches"] += r.Sim.IOSwitches
+	}
 	if r.Sim.SpinBreaks > 0 {
 		res.Probes["spin-breaks"] += r.Sim.SpinBreaks
 	}
